@@ -278,7 +278,7 @@ pub fn selftest() -> i32 {
     if crate::run::seed_shim().is_some() {
         let me = std::env::current_exe().unwrap();
         let order = |seed: u64| {
-            let r = crate::run::spawn(crate::run::Spawn { program: me.clone(), args: vec!["hash-order".into()], cwd: std::path::Path::new("/"), schedule_env: None, trace_file: None, strace: None, hash_seed: Some(seed) });
+            let r = crate::run::spawn(crate::run::Spawn { program: me.clone(), args: vec!["hash-order".into()], cwd: std::path::Path::new("/"), schedule_env: None, trace_file: None, strace: None, hash_seed: Some(seed), fsize_limit: None });
             r.stdout.trim().to_string()
         };
         let orders: Vec<String> = (0..8).map(order).collect();
